@@ -279,10 +279,11 @@ impl<'a, T: Transport> Transferrer<'a, T> {
             // A destination file that has further hard links -- a snapshot made with `cp -al`, or files
             // that used to be hard links of each other in the source and no longer are -- is never
             // rewritten in place: the other names would change with it (two such files overwrote
-            // each other's content on alternate runs). It is replaced through a working file; a group
-            // whose source files still are hard links keeps its shared inode.
+            // each other's content on alternate runs). It is replaced through a working file. With
+            // -H the names of a group that is still one are brought back onto one inode after the
+            // transfers (`relink_hard_link_groups`).
             #[cfg(unix)]
-            if !(self.preserve_hardlinks && source.nlink > 1) {
+            {
                 use std::os::unix::fs::MetadataExt;
                 // (a destination of 10 MB or more is rebuilt through a working file by the delta
                 // path anyway)
